@@ -3,6 +3,7 @@ package main
 import (
 	"bytes"
 	"fmt"
+	"os"
 	"sort"
 	"strings"
 
@@ -11,6 +12,7 @@ import (
 	"verif/core"
 	"verif/runner"
 	"verif/smfdec"
+	"verif/theory"
 )
 
 // run executes crd with the arguments and optional stdin.
@@ -201,3 +203,7 @@ func containsStr(l []string, s string) bool {
 }
 
 var _ = strings.TrimSpace
+
+func theoryKey(s string) (theory.Key, error) { return theory.ParseKey(s) }
+
+func osReadFile(p string) ([]byte, error) { return os.ReadFile(p) }
